@@ -1,12 +1,14 @@
-(* SrcTie3CliDiff.v — a DIFFERENCE between the source and CliExtract.cmd_extract_linear_pool, found by the
-   work package linearT while proving extract_linear_sim: `extract` hands linear_extract an `export` that holds
-   only the names create_file ACCEPTED; the model runs the walk with ALL the sorted names and drops the pieces
-   of skipped names afterwards.  The two agree unless an archive re-uses an id: FileStart(id 0, "b"),
-   FileStart(id 0, "../x"), FileContent(id 0, "DATA").  Source (and its translation): "../x" is not a key of
-   `export`, so id 0 stays bound to "b" and DATA lands in out/b.  Model: the second FileStart re-binds id 0 to
-   "../x", the piece is attributed to "../x" and dropped: out/b stays empty.  Hostile archives only (the
-   writer never re-uses an id); confinement (C16) is not affected — extract_linear_sim ties the source to
-   extract_linear_pool on the pieces of the walk over the ACCEPTED names, which is what C16 quantifies over. *)
+(* SrcTie3CliDiff.v — REGRESSION example for a difference between the source and the model that the work
+   package linearT found while proving extract_linear_sim and the work package fixcli repaired IN THE MODEL:
+   `extract` hands linear_extract an `export` that holds only the names create_file ACCEPTED; the model used to
+   run the walk with ALL the sorted names and to drop the pieces of skipped names afterwards.  The two agree
+   unless an archive re-uses an id: FileStart(id 0, "b"), FileStart(id 0, "../x"), FileContent(id 0, "DATA").
+   Source (and its translation): "../x" is not a key of `export`, so id 0 stays bound to "b" and DATA lands in
+   out/b.  Old model (kept below as dd_model_old): the second FileStart re-binds id 0 to "../x", the piece is
+   attributed to "../x" and dropped: out/b stays empty.  The model of CliExtract.v (extract_linear_body, export =
+   Cli.accepted_names) now gives the source's result: same file system, same status — here by computation, for
+   every archive by SrcTie3Cli.extract_linear_sim.  Hostile archives only (the writer never re-uses an id).
+   Tie B: job c16, cases `reuse-id-*` (the real `mlar extract` on these bytes behind a header and a footer). *)
 From MLA Require Import Base Stream Blocks Reader Path Pool Cli CliExtract SrcTie3Reader.
 From MLAGen Require Src3d Src3l Src3x.
 Import Coq.Strings.String.StringSyntax.
@@ -23,12 +25,39 @@ Definition dd_fs : fs := [([s2b "out"], Dir)].
 Definition dd_source : fs * res unit :=
   Src3x.extract_body dd_S 48 0 1 254 255 7 8 unit (fun _ _ => false) sort_names whole_cut 100 (fun b => (b, [], Ok tt))
     (rep_r dd_S dd_r) dd_out (Src3x.Anything unit) false dd_fs.
-Definition dd_model : fs * bool :=
+(* the model: the body of CliExtract.cmd_extract_linear_pool *)
+Definition dd_model : fs * bool := extract_linear_body 48 0 1 254 255 dd_S 1000 whole_cut 100 dd_r dd_out dd_fs.
+(* what the model was before the repair: export = all the sorted names *)
+Definition dd_model_old : fs * bool :=
   let names := sort_names (list_files dd_S dd_r) in
   let dl := linear_extract_d 48 0 1 254 255 dd_S 100 dd_r names in
   let '(f', b) := extract_linear_pool RAppend 1000 whole_cut dd_out names (fst dl) dd_fs in (f', b && is_ok (snd dl)).
 
-Theorem extract_linear_reused_id_differs :
-  snd dd_source = Ok tt /\ read_file (fst dd_source) (dd_out ++ [s2b "b"]) = Some (s2b "DATA") /\
-  snd dd_model = true /\ read_file (fst dd_model) (dd_out ++ [s2b "b"]) = Some [].
+(* model = source on the re-used-id archive: the whole file system and the status *)
+Theorem extract_linear_reused_id_agrees :
+  dd_model = (fst dd_source, is_ok (snd dd_source)) /\
+  snd dd_model = true /\ read_file (fst dd_model) (dd_out ++ [s2b "b"]) = Some (s2b "DATA") /\
+  accepted_names dd_out (sort_names (list_files dd_S dd_r)) dd_fs = [s2b "b"].
+Proof. vm_compute. repeat split. Qed.
+
+(* the old model is refuted by the same archive (the check would flag a model that went back to it) *)
+Theorem extract_linear_reused_id_old_model_refuted :
+  read_file (fst dd_model_old) (dd_out ++ [s2b "b"]) = Some [] /\ fst dd_model_old <> fst dd_source.
+Proof. split; [vm_compute; reflexivity|]. vm_compute. discriminate. Qed.
+
+(* ---------- second regression (fixcli b): a panic below get_file ---------- *)
+(* a layer that panics in `seek` (the only way get_file can panic: Reader.get_file has no panic site of its
+   own).  Source: the panic unwinds through `extract`, exit 101, nothing touched, the NEXT name is not looked
+   at.  The model used to go on to the next name (and would have created out/b here); it now ends there. *)
+From MLA Require Import SrcTie3CliCopy.
+Definition pk_S : Stream := {| st := bool; rd := fun s _ => (s, Ok []); sk := fun s _ => (true, if s then Ok 0 else Crash 77) |}.
+(* state false: the first seek panics (and flips the state: a later get_file would succeed in seeking) *)
+Definition pk_r : rstate pk_S := @mkR pk_S false [(s2b "a", mkFI [0] 0 0); (s2b "b", mkFI [0] 0 0)].
+Definition pk_source : (Src3d.ArchiveReader pk_S * fs) * res unit :=
+  Src3x.extract_for2 pk_S 48 0 1 254 255 7 unit (fun _ _ => false) (g_copy pk_S 48 0 1 254 255 7 2 10)
+    dd_out (Src3x.Files unit []) false (rep_r pk_S pk_r) dd_fs [s2b "a"; s2b "b"].
+Definition pk_model : fs * bool := extract_listed_loop 48 0 1 254 255 pk_S 2 10 pk_r [s2b "a"; s2b "b"] dd_out dd_fs.
+Theorem extract_selected_panic_unwinds :
+  snd pk_source = Crash 77 /\ pk_model = (snd (fst pk_source), is_ok (snd pk_source)) /\ pk_model = (dd_fs, false) /\
+  copies_fuelled 48 0 1 254 255 pk_S 2 10 pk_r [s2b "a"; s2b "b"] dd_out dd_fs = true.
 Proof. vm_compute. repeat split. Qed.
